@@ -640,6 +640,7 @@ func (s *Store) commit() (types.Work, error) {
 	// that the index still names, and GC would delete live data. So only
 	// flush the blocks that are on the freelist before the index is flushed.
 	freed := s.freelist.Mark()
+	vhook.Point("commit.marked")
 
 	primaryWork, err := s.index.Primary.Flush()
 	if err != nil {
